@@ -140,6 +140,15 @@ let run_i args =
         (match try_from_u32 (n_of_int (int_of_string rest)) with
          | None -> "x"
          | Some inner -> "k" ^ string_of_int (int_of_n (into_u32 inner)))
+      | 'u' ->
+        (* <TokenKey as lasso::Key>::try_from_usize on a 64-bit raw value, then into_usize *)
+        let x = Int64.of_string ("0u" ^ rest) in
+        let rec pos_of_u64 x = if x = 1L then XH else
+            let r = pos_of_u64 (Int64.shift_right_logical x 1) in if Int64.logand x 1L = 1L then XI r else XO r in
+        let raw = if x = 0L then N0 else Npos (pos_of_u64 x) in
+        (match from_lasso raw with
+         | None -> "x"
+         | Some inner -> "k" ^ string_of_int (int_of_n (into_u32 inner)))
       | _ -> failwith ("bad intern op " ^ op)) (List.tl args) in
   String.concat " " out
 
@@ -671,6 +680,7 @@ let run_line line =
     let pieces = if kind = "math" then List.map (fun a -> match String.index_opt a ':' with Some i -> String.sub a (i + 1) (String.length a - i - 1) | None -> "") rest else rest in
     "text=" ^ String.concat "." (List.filter (fun x -> x <> "") pieces)
   | "M" :: _ -> "ok"      (* a Miri run: the model's claim is the theorem (no race) *)
+  | "U" :: _ -> "ok"      (* a run with user destructors as scheduling points: the model's claim is C18_data_linearizable *)
   | "B" :: args -> run_b args
   | "H" :: args -> run_h args
   | "D" :: args -> run_d args
